@@ -56,6 +56,12 @@ class C15Cuckoo(CuckooWorld):
             raise Violation("capacity_jump", f"capacity {self.f.capacity} -> {g.capacity} across export/load ({chan})",
                             self.sig(step, out, where="restart"))
         self.invariants(g, step, out, f"after load via {chan}")
+        # the loaded table is exported once more while it stays in use: exporting must leave the exposed table as it is
+        again = bytes(g)
+        self.invariants(g, step, out, f"after exporting the table loaded via {chan}")
+        if again != bytes(g):
+            raise Violation("export_not_repeatable", "two consecutive exports of a loaded table differ",
+                            self.sig(step, out, where="restart"))
         self.f = g
         self.adopt(self.f, self.model, {"op": "restart"})
         return {"r": "ok", "cap": g.capacity, "n": len(self.model)}
